@@ -80,7 +80,7 @@ Step == Reset \/ Call \/ Tx \/ Rx \/ Other
 Ctx == [attempt |-> IF (IF Ev.ev = "tx" THEN att + 1 ELSE att) > 1 THEN "retry" ELSE "first", after |-> kinds]
 Check(prop, pred_, ok) == IF ok THEN {} ELSE {[prop |-> prop, pred |-> pred_, ctx |-> Ctx]}
 CmdOk(mm) == /\ mm.ok /\ mm.rsAddr = 32 /\ mm.rsLun = 0
-             /\ mm.netfn = CmdTab[cur].netfn /\ mm.cmd = CmdTab[cur].num /\ mm.data = CmdTab[cur].body
+             /\ mm.netfn = CmdTab[cur].netfn /\ mm.cmd = CmdTab[cur].num /\ mm.data = CmdTab[cur].wire
 PredSent == IF txN + 1 <= Len(pred.sent) THEN pred.sent[txN + 1] ELSE [call |-> -1, seq |-> -1]
 PredRes  == IF callN >= 1 /\ callN <= Len(pred.results) THEN pred.results[callN] ELSE [err |-> "none", code |-> "none"]
 PredTxOfCall == Cardinality({i \in 1..Len(pred.sent) : pred.sent[i].call = callN})
@@ -103,7 +103,8 @@ TxViol(e) ==
                      w.ok /\ p.ok /\ w.plen = 16 + Len(e.plain) /\ p.n = ConfPadLen(Len(p.msg)))
           \cup Check("C03", "inner-message-is-called-command", CmdOk(mm))
           \cup Check("C03", "iv-fresh", Len(e.raw) >= 32 /\ Sub(e.raw, 16, 32) \notin ivs)
-          \cup Check("C10", "retransmission-is-same-command", att = 0 \/ (CmdOk(mm) /\ w.ok /\ w.sid = BmcSid))
+          \cup Check("C10", "retransmission-is-same-command",
+                     att = 0 \/ (CmdOk(mm) /\ w.ok /\ w.sid = BmcSid /\ Has(e, "authOK") /\ e.authOK /\ p.ok))
           \cup Check("C10", "no-tx-after-transport-failure", ~dead)
           \cup Check("C10", "tx-predicted-by-reference-model", PredSent.call = callN)
   ELSE LET w  == ParseWrapper(e.raw, 0)
